@@ -4274,6 +4274,7 @@ static WBXMLError xml_fill_header(WBXMLEncoder *encoder, WBXMLBuffer *header)
 static WBXMLError xml_encode_tag(WBXMLEncoder *encoder, WBXMLTreeNode *node)
 {
     const WB_TINY *ns = NULL;
+    WBXMLTreeNode *anc = NULL;
     WB_ULONG i;
 
     /* Set as current Tag */
@@ -4298,14 +4299,20 @@ static WBXMLError xml_encode_tag(WBXMLEncoder *encoder, WBXMLTreeNode *node)
     if (!wbxml_buffer_append_cstr(encoder->output, wbxml_tag_get_xml_name(node->name)))
         return WBXML_ERROR_ENCODER_APPEND_DATA;
 
-    /* NameSpace handling: Check if Current Node Code Page is different than Parent Node Code Page */
+    /* NameSpace handling: search the nearest ancestor Element that has a Code Page
+     * (Literal Elements have none: they neither get nor change a NameSpace; CDATA nodes are skipped) */
+    for (anc = node->parent; anc != NULL; anc = anc->parent) {
+        if ((anc->type == WBXML_TREE_ELEMENT_NODE) &&
+            (anc->name != NULL) &&
+            (anc->name->type == WBXML_VALUE_TOKEN))
+            break;
+    }
+
+    /* Check if Current Node Code Page is different than this ancestor's Code Page (or if there is no such ancestor) */
     if ((encoder->lang->nsTable != NULL) &&
-        ((node->parent == NULL) ||
-         ((node->parent->type == WBXML_TREE_ELEMENT_NODE) &&
-          (node->parent->name->type == WBXML_VALUE_TOKEN) &&
-          (node->type == WBXML_TREE_ELEMENT_NODE) &&
-          (node->name->type == WBXML_VALUE_TOKEN) &&
-          (node->parent->name->u.token->wbxmlCodePage != node->name->u.token->wbxmlCodePage))))
+        (node->name->type == WBXML_VALUE_TOKEN) &&
+        ((anc == NULL) ||
+         (anc->name->u.token->wbxmlCodePage != node->name->u.token->wbxmlCodePage)))
     {
         if ((ns = wbxml_tables_get_xmlns(encoder->lang->nsTable, node->name->u.token->wbxmlCodePage)) != NULL)
         {
